@@ -8,6 +8,8 @@
 import CB.Props.C10
 import CB.Lemmas.GenBitsSafeGcd
 import CB.Lemmas.GenSafeGcdJump
+import CB.Lemmas.GenSafeGcdLimbs
+import CB.Lemmas.GenSafeGcdDivsteps
 namespace CB.P10G
 open CB CB.SafeGcd
 
@@ -110,6 +112,284 @@ theorem safegcd_words_are_translated_source :
 /-- non-vacuity: the translated source on f = 7, g = 12, δ = 1 (the example of T10.4), and `iterations(256, 256)` -/
 example : (Gen.SafeGcd.jump [7#64] [12#64] 1#64).2.1.1.toInt * 7 + (Gen.SafeGcd.jump [7#64] [12#64] 1#64).2.1.2.toInt * 12
       = 2 ^ 62 * 1 ∧ (Gen.SafeGcd.iterations 256#32 256#32).toNat = 741 := by
+  decide +kernel
+
+/-! ## T10.G (limbs) — the SOURCE of `impl UnsatInt<LIMBS>` and of `fg`, `de`
+
+`Gen.SafeGcdLimbs.UnsatInt.{add, mul, neg, shr, eq, is_negative, lowest, select}` and `Gen.SafeGcdLimbs.{fg, de}` are the
+Lean translations of what src/modular/safegcd.rs says NOW (CB/Gen/SafeGcdLimbs.lean): an `UnsatInt<LIMBS>` is the list of
+its 62-bit words (`List (BitVec 64)`, `LIMBS` an explicit argument), each `while i < LIMBS` loop a fuel-recursive
+`*_loop1`, `u64` / `i64` / `u128` arithmetic the wrapping `BitVec` operations.  `nats` reads the words as the model's
+`Nat`s, `WFw` is the model's representation invariant (`WF62`: every word `< 2^62`), `uvalN` / `uval` the unsigned /
+two's-complement value of a word list, `Q = 2^62`. -/
+
+open CB.GenChains (nats) in
+open CB.GenSafeGcdLimbs (WFw) in
+/-- `UnsatInt::add` of the source is the model's `uadd` for every limb count, and adds the values modulo `2^(62·LIMBS)` -/
+theorem src_unsat_add_exact (a b : List (BitVec 64)) (h : a.length = b.length) (wa : WFw a) (wb : WFw b) :
+    nats (Gen.SafeGcdLimbs.UnsatInt.add a.length a b) = uadd (nats a) (nats b) ∧
+    (Gen.SafeGcdLimbs.UnsatInt.add a.length a b).length = a.length ∧
+    WFw (Gen.SafeGcdLimbs.UnsatInt.add a.length a b) ∧
+    uvalN (nats (Gen.SafeGcdLimbs.UnsatInt.add a.length a b)) = (uvalN (nats a) + uvalN (nats b)) % Q ^ a.length := by
+  obtain ⟨e, w, l⟩ := GenSafeGcdLimbs.add_ok a b h wa wb
+  refine ⟨e, l, w, ?_⟩
+  rw [e, (uadd_spec (nats a) (nats b) (by simp [nats, h])).2.2]
+  simp [nats]
+
+open CB.GenChains (nats) in
+open CB.GenSafeGcdLimbs (WFw) in
+/-- `UnsatInt::mul(i64)` of the source is the model's `umul` for every limb count and every multiplier except `i64::MIN`
+    (where the source's `-other` overflows), and multiplies the value modulo `2^(62·LIMBS)` -/
+theorem src_unsat_mul_exact (a : List (BitVec 64)) (o : BitVec 64) (wa : WFw a) (ho : -(2 ^ 63) < o.toInt) :
+    nats (Gen.SafeGcdLimbs.UnsatInt.mul a.length a o) = umul (nats a) o.toInt ∧
+    (Gen.SafeGcdLimbs.UnsatInt.mul a.length a o).length = a.length ∧
+    WFw (Gen.SafeGcdLimbs.UnsatInt.mul a.length a o) ∧
+    ((uvalN (nats (Gen.SafeGcdLimbs.UnsatInt.mul a.length a o)) : Nat) : Int) ≡
+      (uvalN (nats a) : Nat) * o.toInt [ZMOD ((Q ^ a.length : Nat) : Int)] := by
+  obtain ⟨e, w, l⟩ := GenSafeGcdLimbs.mul_ok a o wa ho
+  refine ⟨e, l, w, ?_⟩
+  have := (umul_spec (nats a) o.toInt ((GenSafeGcdLimbs.WFw_iff a).mp wa) (GenSafeGcdLimbs.toInt_bounds o).1
+    (GenSafeGcdLimbs.toInt_bounds o).2).2.2
+  rw [e]
+  simpa [nats] using this
+
+open CB.GenChains (nats) in
+open CB.GenSafeGcdLimbs (WFw) in
+/-- `UnsatInt::neg` of the source is the model's `uneg` for every limb count, and negates the value modulo `2^(62·LIMBS)` -/
+theorem src_unsat_neg_exact (a : List (BitVec 64)) (wa : WFw a) :
+    nats (Gen.SafeGcdLimbs.UnsatInt.neg a.length a) = uneg (nats a) ∧
+    uvalN (nats (Gen.SafeGcdLimbs.UnsatInt.neg a.length a)) = (Q ^ a.length - uvalN (nats a)) % Q ^ a.length := by
+  have e := (GenSafeGcdLimbs.uneg_bridge a wa).symm
+  refine ⟨e, ?_⟩
+  rw [e, (uneg_spec (nats a) ((GenSafeGcdLimbs.WFw_iff a).mp wa)).2.2]
+  simp [nats]
+
+open CB.GenChains (nats) in
+open CB.GenSafeGcdLimbs (WFw) in
+/-- `UnsatInt::shr` of the source is the model's `ushr` for every limb count `≥ 1`; for `≥ 2` limbs it is the exact
+    arithmetic shift of the two's-complement value by 62 bits.  `is_negative` is the mask of the sign of that value,
+    `lowest` the lowest word. -/
+theorem src_unsat_shr_exact (a : List (BitVec 64)) (hne : a ≠ []) (wa : WFw a) :
+    nats (Gen.SafeGcdLimbs.UnsatInt.shr a.length a) = ushr (nats a) ∧
+    (2 ≤ a.length → uval (nats (Gen.SafeGcdLimbs.UnsatInt.shr a.length a)) = uval (nats a) / (Q : Int)) ∧
+    Gen.SafeGcdLimbs.UnsatInt.is_negative a.length a = GenBits.ofBool (decide (uval (nats a) < 0)) ∧
+    (Gen.SafeGcdLimbs.UnsatInt.lowest a.length a).toNat = ulowest (nats a) := by
+  have e := (GenSafeGcdLimbs.ushr_bridge a hne).symm
+  have wa' := (GenSafeGcdLimbs.WFw_iff a).mp wa
+  have hne' : nats a ≠ [] := by simpa [nats] using hne
+  refine ⟨e, fun h2 => ?_, ?_, (GenSafeGcdLimbs.ulowest_bridge a).symm⟩
+  · rw [e]; exact (ushr_spec (nats a) wa' (by simpa [nats] using h2)).2.2
+  · rw [GenSafeGcdLimbs.uisNeg_bridge]
+    congr 1
+    have := (P10.unsat_eq_is_negative (nats a) (nats a) wa' wa' rfl hne').2
+    rw [Bool.eq_iff_iff, this]; simp
+
+open CB.GenChains (nats) in
+open CB.GenSafeGcdLimbs (WFw) in
+/-- `UnsatInt::eq` / `UnsatInt::select` of the source are the model's `ueq` / `uselect`; `eq` is the mask of equality of the
+    two's-complement values -/
+theorem src_unsat_eq_select_exact (a b : List (BitVec 64)) (h : a.length = b.length) (hne : a ≠ []) (wa : WFw a) (wb : WFw b)
+    (p : Bool) :
+    Gen.SafeGcdLimbs.UnsatInt.eq a.length a b = GenBits.ofBool (decide (uval (nats a) = uval (nats b))) ∧
+    nats (Gen.SafeGcdLimbs.UnsatInt.select a.length a b (GenBits.ofBool p)) = (if p then nats b else nats a) := by
+  have hne' : nats a ≠ [] := by simpa [nats] using hne
+  refine ⟨?_, ?_⟩
+  · rw [GenSafeGcdLimbs.ueq_bridge a b h]
+    congr 1
+    have := (P10.unsat_eq_is_negative (nats a) (nats b) ((GenSafeGcdLimbs.WFw_iff a).mp wa)
+      ((GenSafeGcdLimbs.WFw_iff b).mp wb) (by simp [nats, h]) hne').1
+    rw [Bool.eq_iff_iff, this]; simp
+  · rw [← GenSafeGcdLimbs.uselect_bridge a b p h]; rfl
+
+open CB.GenChains (nats) in
+open CB.GenSafeGcdLimbs (WFw) in
+/-- `UnsatInt::leading_zeros` / `UnsatInt::bits` of the source (the inputs of `iterations` in `divsteps`) are the model's `ulz` /
+    `ubits` for every limb count whose bit length `62·LIMBS` fits the `u32` arithmetic of the source -/
+theorem src_unsat_bits_exact (a : List (BitVec 64)) (wa : WFw a) (hL : 62 * a.length < 2 ^ 32) :
+    (Gen.SafeGcdLimbs.UnsatInt.leading_zeros a.length a).toNat = ulz (nats a) ∧
+    (Gen.SafeGcdLimbs.UnsatInt.bits a.length a).toNat = ubits (nats a) :=
+  GenSafeGcdLimbs.ulz_bridge a wa hL
+
+open CB.GenChains (nats) in
+open CB.GenSafeGcdLimbs (WFw matOf) in
+/-- `fg` of the source: T10.4(d) `fg_exact` restated for the translated function — for well-formed `n ≥ 2`-limb operands, a
+    matrix whose rows have absolute sum `≤ 2^62` and `T·(F, G)` within the signed range of the limbs, the words the SOURCE
+    returns are well formed and represent exactly `⌊(t00·F + t01·G)/2^62⌋`, `⌊(t10·F + t11·G)/2^62⌋` -/
+theorem src_fg_exact (f g : List (BitVec 64)) (t : (BitVec 64 × BitVec 64) × (BitVec 64 × BitVec 64))
+    (wf : WFw f) (wg : WFw g) (hl : f.length = g.length) (hlen : 2 ≤ f.length)
+    (hb0 : |t.1.1.toInt| + |t.1.2.toInt| ≤ 2 ^ 62) (hb1 : |t.2.1.toInt| + |t.2.2.toInt| ≤ 2 ^ 62)
+    (hr0a : -((Q ^ f.length : Nat) : Int) ≤ 2 * (t.1.1.toInt * uval (nats f) + t.1.2.toInt * uval (nats g)))
+    (hr0b : 2 * (t.1.1.toInt * uval (nats f) + t.1.2.toInt * uval (nats g)) < ((Q ^ f.length : Nat) : Int))
+    (hr1a : -((Q ^ f.length : Nat) : Int) ≤ 2 * (t.2.1.toInt * uval (nats f) + t.2.2.toInt * uval (nats g)))
+    (hr1b : 2 * (t.2.1.toInt * uval (nats f) + t.2.2.toInt * uval (nats g)) < ((Q ^ f.length : Nat) : Int)) :
+    (nats (Gen.SafeGcdLimbs.fg f.length f g t).1, nats (Gen.SafeGcdLimbs.fg f.length f g t).2) =
+      fg (nats f) (nats g) (matOf t) ∧
+    (Gen.SafeGcdLimbs.fg f.length f g t).1.length = f.length ∧ WFw (Gen.SafeGcdLimbs.fg f.length f g t).1 ∧
+    uval (nats (Gen.SafeGcdLimbs.fg f.length f g t).1) =
+      (t.1.1.toInt * uval (nats f) + t.1.2.toInt * uval (nats g)) / (Q : Int) ∧
+    (Gen.SafeGcdLimbs.fg f.length f g t).2.length = f.length ∧ WFw (Gen.SafeGcdLimbs.fg f.length f g t).2 ∧
+    uval (nats (Gen.SafeGcdLimbs.fg f.length f g t).2) =
+      (t.2.1.toInt * uval (nats f) + t.2.2.toInt * uval (nats g)) / (Q : Int) := by
+  have hne : f ≠ [] := by intro h0; rw [h0] at hlen; simp at hlen
+  have e00 := abs_le.mp (le_trans (le_add_of_nonneg_right (abs_nonneg t.1.2.toInt)) hb0)
+  have e01 := abs_le.mp (le_trans (le_add_of_nonneg_left (abs_nonneg t.1.1.toInt)) hb0)
+  have e10 := abs_le.mp (le_trans (le_add_of_nonneg_right (abs_nonneg t.2.2.toInt)) hb1)
+  have e11 := abs_le.mp (le_trans (le_add_of_nonneg_left (abs_nonneg t.2.1.toInt)) hb1)
+  have hbr := GenSafeGcdLimbs.fg_bridge f g t hl hne wf wg (by omega) (by omega) (by omega) (by omega)
+  have hnl : (nats f).length = f.length := by simp [nats]
+  obtain ⟨p1, p2, p3, p4, p5, p6⟩ := P10.fg_exact (nats f) (nats g) (matOf t) ((GenSafeGcdLimbs.WFw_iff f).mp wf)
+    ((GenSafeGcdLimbs.WFw_iff g).mp wg) (by simp [nats, hl]) (by rw [hnl]; exact hlen) hb0 hb1
+    (by rw [hnl]; exact hr0a) (by rw [hnl]; exact hr0b) (by rw [hnl]; exact hr1a) (by rw [hnl]; exact hr1b)
+  rw [hbr] at p1 p2 p3 p4 p5 p6
+  simp only [hnl] at p1 p4
+  refine ⟨hbr.symm, ?_, (GenSafeGcdLimbs.WFw_iff _).mpr p2, p3, ?_, (GenSafeGcdLimbs.WFw_iff _).mpr p5, p6⟩
+  · simpa [nats] using p1
+  · simpa [nats] using p4
+
+open CB.GenChains (nats) in
+open CB.GenSafeGcdLimbs (WFw matOf) in
+/-- `de` of the source: T10.4(d) `de_exact` restated for the translated function — with `d, e ∈ (-2M, M)`,
+    `inverse·M ≡ 1 (mod 2^62)` and `2^64·M ≤ 2^(62n)`, the words the SOURCE returns satisfy
+    `2^62·d' = t00·d + t01·e + md·M`, `2^62·e' = t10·d + t11·e + me·M` exactly for some integers `md`, `me`, and
+    `d', e' ∈ (-2M, M)` again -/
+theorem src_de_exact (m d e : List (BitVec 64)) (inv : BitVec 64) (t : (BitVec 64 × BitVec 64) × (BitVec 64 × BitVec 64))
+    (wd : WFw d) (we : WFw e) (wm : WFw m) (hle : e.length = d.length) (hlm : m.length = d.length) (hlen : 2 ≤ d.length)
+    (hb0 : |t.1.1.toInt| + |t.1.2.toInt| ≤ 2 ^ 62) (hb1 : |t.2.1.toInt| + |t.2.2.toInt| ≤ 2 ^ 62)
+    (hM : 0 < uval (nats m)) (hD1 : -(2 * uval (nats m)) < uval (nats d)) (hD2 : uval (nats d) < uval (nats m))
+    (hE1 : -(2 * uval (nats m)) < uval (nats e)) (hE2 : uval (nats e) < uval (nats m))
+    (hcap : 2 ^ 64 * uval (nats m) ≤ ((Q ^ d.length : Nat) : Int))
+    (hinv : inv.toInt * uval (nats m) ≡ 1 [ZMOD 2 ^ 62]) :
+    (nats (Gen.SafeGcdLimbs.de d.length m inv t d e).1, nats (Gen.SafeGcdLimbs.de d.length m inv t d e).2) =
+      de (nats m) inv.toInt (matOf t) (nats d) (nats e) ∧
+    ∃ md me : Int,
+      WFw (Gen.SafeGcdLimbs.de d.length m inv t d e).1 ∧ WFw (Gen.SafeGcdLimbs.de d.length m inv t d e).2 ∧
+      2 ^ 62 * uval (nats (Gen.SafeGcdLimbs.de d.length m inv t d e).1) =
+        t.1.1.toInt * uval (nats d) + t.1.2.toInt * uval (nats e) + md * uval (nats m) ∧
+      2 ^ 62 * uval (nats (Gen.SafeGcdLimbs.de d.length m inv t d e).2) =
+        t.2.1.toInt * uval (nats d) + t.2.2.toInt * uval (nats e) + me * uval (nats m) ∧
+      -(2 * uval (nats m)) < uval (nats (Gen.SafeGcdLimbs.de d.length m inv t d e).1) ∧
+      uval (nats (Gen.SafeGcdLimbs.de d.length m inv t d e).1) < uval (nats m) ∧
+      -(2 * uval (nats m)) < uval (nats (Gen.SafeGcdLimbs.de d.length m inv t d e).2) ∧
+      uval (nats (Gen.SafeGcdLimbs.de d.length m inv t d e).2) < uval (nats m) := by
+  have hne : d ≠ [] := by intro h0; rw [h0] at hlen; simp at hlen
+  have hbr := GenSafeGcdLimbs.de_bridge m d e inv t hle hlm hne wm wd we hb0 hb1
+  have hnl : (nats d).length = d.length := by simp [nats]
+  obtain ⟨md, me, p1, p2, p3, p4, p5, p6, p7, p8, p9, p10⟩ :=
+    P10.de_exact (nats m) (nats d) (nats e) inv.toInt (matOf t) ((GenSafeGcdLimbs.WFw_iff d).mp wd)
+      ((GenSafeGcdLimbs.WFw_iff e).mp we) ((GenSafeGcdLimbs.WFw_iff m).mp wm) (by simp [nats, hle]) (by simp [nats, hlm])
+      (by rw [hnl]; exact hlen) hb0 hb1 hM hD1 hD2 hE1 hE2 (by rw [hnl]; exact hcap) hinv
+  rw [hbr] at p2 p4 p5 p6 p7 p8 p9 p10
+  exact ⟨hbr.symm, md, me, (GenSafeGcdLimbs.WFw_iff _).mpr p2, (GenSafeGcdLimbs.WFw_iff _).mpr p4, p5, p6, p7, p8, p9, p10⟩
+
+open CB.GenChains (nats) in
+open CB.GenSafeGcdLimbs (WFw matOf) in
+/-- the hand-written models of the LIMB arithmetic of safegcd (what T10.4(d) and the loop theorems are proved about) ARE
+    the translated source, for every limb count: `add`, `neg`, `mul` (multiplier `≠ i64::MIN`), `shr` (`LIMBS ≥ 1`),
+    `is_negative`, `lowest`, `eq`, `select` of `UnsatInt`, and `fg`, `de` (rows of the matrix of absolute sum `≤ 2^62`);
+    `leading_zeros` / `bits`: `src_unsat_bits_exact` -/
+theorem safegcd_limbs_are_translated_source :
+    (∀ a b : List (BitVec 64), a.length = b.length → WFw a → WFw b →
+      uadd (nats a) (nats b) = nats (Gen.SafeGcdLimbs.UnsatInt.add a.length a b)) ∧
+    (∀ a : List (BitVec 64), WFw a → uneg (nats a) = nats (Gen.SafeGcdLimbs.UnsatInt.neg a.length a)) ∧
+    (∀ (a : List (BitVec 64)) (o : BitVec 64), -(2 ^ 63) < o.toInt →
+      umul (nats a) o.toInt = nats (Gen.SafeGcdLimbs.UnsatInt.mul a.length a o)) ∧
+    (∀ a : List (BitVec 64), a ≠ [] → ushr (nats a) = nats (Gen.SafeGcdLimbs.UnsatInt.shr a.length a)) ∧
+    (∀ a : List (BitVec 64), Gen.SafeGcdLimbs.UnsatInt.is_negative a.length a = GenBits.ofBool (uisNeg (nats a))) ∧
+    (∀ a : List (BitVec 64), ulowest (nats a) = (Gen.SafeGcdLimbs.UnsatInt.lowest a.length a).toNat) ∧
+    (∀ a b : List (BitVec 64), a.length = b.length →
+      Gen.SafeGcdLimbs.UnsatInt.eq a.length a b = GenBits.ofBool (SafeGcd.ueq (nats a) (nats b))) ∧
+    (∀ (a b : List (BitVec 64)) (p : Bool), a.length = b.length →
+      SafeGcd.uselect (nats a) (nats b) p = nats (Gen.SafeGcdLimbs.UnsatInt.select a.length a b (GenBits.ofBool p))) ∧
+    (∀ (f g : List (BitVec 64)) (t : (BitVec 64 × BitVec 64) × (BitVec 64 × BitVec 64)), f.length = g.length → f ≠ [] →
+      WFw f → WFw g → -(2 ^ 63) < t.1.1.toInt → -(2 ^ 63) < t.1.2.toInt → -(2 ^ 63) < t.2.1.toInt → -(2 ^ 63) < t.2.2.toInt →
+      fg (nats f) (nats g) (matOf t) =
+        (nats (Gen.SafeGcdLimbs.fg f.length f g t).1, nats (Gen.SafeGcdLimbs.fg f.length f g t).2)) ∧
+    (∀ (m d e : List (BitVec 64)) (inv : BitVec 64) (t : (BitVec 64 × BitVec 64) × (BitVec 64 × BitVec 64)),
+      e.length = d.length → m.length = d.length → d ≠ [] → WFw m → WFw d → WFw e →
+      |t.1.1.toInt| + |t.1.2.toInt| ≤ 2 ^ 62 → |t.2.1.toInt| + |t.2.2.toInt| ≤ 2 ^ 62 →
+      de (nats m) inv.toInt (matOf t) (nats d) (nats e) =
+        (nats (Gen.SafeGcdLimbs.de d.length m inv t d e).1, nats (Gen.SafeGcdLimbs.de d.length m inv t d e).2)) :=
+  ⟨GenSafeGcdLimbs.uadd_bridge, GenSafeGcdLimbs.uneg_bridge, GenSafeGcdLimbs.umul_bridge, GenSafeGcdLimbs.ushr_bridge,
+    GenSafeGcdLimbs.uisNeg_bridge, GenSafeGcdLimbs.ulowest_bridge, GenSafeGcdLimbs.ueq_bridge, GenSafeGcdLimbs.uselect_bridge,
+    GenSafeGcdLimbs.fg_bridge, GenSafeGcdLimbs.de_bridge⟩
+
+open CB.GenChains (nats) in
+open CB.GenSafeGcdLimbs (WFw dsOf) in
+/-- `divsteps` of the source (the outer loop `while i < iterations(f_0.bits(), g.bits())`: `jump`, `fg`, `de` per trip) IS the
+    model's `divsteps` for every limb count `2 ≤ LIMBS ≤ 1413748` (where the `u32` bit counts do not wrap), on every initial
+    state that satisfies the loop invariants of T10.5 (`FGI`: `f_0`, `g` well formed within `Bd`, `f_0` odd; `DEI`: `d = 0`,
+    `e ∈ (-2M, M)` well formed) — what `SafeGcdInverter::inv` and `gcd` establish before the call; `jump` moves `delta` by at
+    most 62 per trip (`jump_delta_bound`), so no `i64` of the loop wraps within the `< 2^32` trips.
+    Hence `FGI` / `DEI` hold for the words the SOURCE returns (T10.5 `dsLoop_inv` restated). -/
+theorem src_divsteps_exact (Bd : Int) (gs : Nat) (x adj : Int) (e f0 g : List (BitVec 64)) (inv : BitVec 64)
+    (hn : 2 ≤ f0.length) (hL : f0.length ≤ 1413748) (hcap : 2 ^ 64 * Bd ≤ ((Q ^ f0.length : Nat) : Int))
+    (w0 : WFw f0) (hM : 0 < uval (nats f0)) (hModd : uval (nats f0) % 2 = 1) (hMB : uval (nats f0) ≤ Bd)
+    (hinv : inv.toInt * uval (nats f0) ≡ 1 [ZMOD 2 ^ 62])
+    (hfg : FGI f0.length Bd gs (dsOf e g (List.replicate f0.length 0#64) f0 1#64))
+    (hde : DEI f0.length (nats f0) x adj (dsOf e g (List.replicate f0.length 0#64) f0 1#64)) :
+    (nats (Gen.SafeGcdLimbs.divsteps f0.length e f0 g inv).1, nats (Gen.SafeGcdLimbs.divsteps f0.length e f0 g inv).2) =
+      ((divsteps false (nats e) (nats f0) (nats g) inv.toInt).d, (divsteps false (nats e) (nats f0) (nats g) inv.toInt).f) ∧
+    (Gen.SafeGcd.iterations (Gen.SafeGcdLimbs.UnsatInt.bits f0.length f0) (Gen.SafeGcdLimbs.UnsatInt.bits f0.length g)).toNat =
+      iterations (ubits (nats f0)) (ubits (nats g)) ∧
+    WFw (Gen.SafeGcdLimbs.divsteps f0.length e f0 g inv).1 ∧ WFw (Gen.SafeGcdLimbs.divsteps f0.length e f0 g inv).2 ∧
+    -(2 * uval (nats f0)) < uval (nats (Gen.SafeGcdLimbs.divsteps f0.length e f0 g inv).1) ∧
+    uval (nats (Gen.SafeGcdLimbs.divsteps f0.length e f0 g inv).1) < uval (nats f0) ∧
+    uval (nats (Gen.SafeGcdLimbs.divsteps f0.length e f0 g inv).2) % 2 = 1 ∧
+    uval (nats (Gen.SafeGcdLimbs.divsteps f0.length e f0 g inv).1) * x ≡
+      uval (nats (Gen.SafeGcdLimbs.divsteps f0.length e f0 g inv).2) * adj [ZMOD uval (nats f0)] := by
+  have hb := GenSafeGcdLimbs.divsteps_bridge Bd gs x adj e f0 g inv hn hL hcap w0 hM hModd hMB hinv hfg hde
+  have lg : g.length = f0.length := by have := hfg.lg; simpa [dsOf, nats] using this
+  have htr := GenSafeGcdLimbs.trips_bridge f0 g w0 ((GenSafeGcdLimbs.WFw_iff g).mpr hfg.wg) lg hL
+  have h1 : (1#64 : BitVec 64).toInt = 1 := by decide
+  have hinit : dsOf e g (List.replicate f0.length 0#64) f0 1#64 = ⟨1, nats f0, nats g, SafeGcd.uzero (nats f0).length, nats e⟩ := by
+    simp [dsOf, h1, SafeGcd.uzero, nats]
+  obtain ⟨i1, i2⟩ := dsLoop_inv f0.length Bd gs hn hcap (nats f0) inv.toInt x adj ((GenSafeGcdLimbs.WFw_iff f0).mp w0)
+    (by simp [nats]) hM hModd hMB hinv (iterations (ubits (nats f0)) (ubits (nats g))) _ hfg hde
+  rw [hinit] at i1 i2
+  have hd : (divsteps false (nats e) (nats f0) (nats g) inv.toInt) =
+      dsLoop (nats f0) inv.toInt (iterations (ubits (nats f0)) (ubits (nats g))) ⟨1, nats f0, nats g, SafeGcd.uzero (nats f0).length, nats e⟩ := by
+    simp [divsteps]
+  rw [← hd] at i1 i2
+  have e1 := congrArg Prod.fst hb
+  have e2 := congrArg Prod.snd hb
+  simp only at e1 e2
+  refine ⟨hb, htr, (GenSafeGcdLimbs.WFw_iff _).mpr (e1 ▸ i2.wd), (GenSafeGcdLimbs.WFw_iff _).mpr (e2 ▸ i1.wf), ?_, ?_, ?_, ?_⟩
+  · rw [e1]; exact i2.d1
+  · rw [e1]; exact i2.d2
+  · rw [e2]; exact i1.odd
+  · rw [e1, e2]; exact i2.cd
+
+open CB.GenChains (nats) in
+open CB.GenSafeGcdLimbs (WFw) in
+/-- `SafeGcdInverter::norm` of the source (`&self` = the tuple of the fields `(modulus, adjuster, inverse)`) is the model's
+    `norm` for every limb count; hence (`inverter_norm_exact` restated) for `value ∈ (−2M, M)` and both values of `negate` the
+    words the SOURCE returns are well formed and represent `±value mod M` in `[0, M)` -/
+theorem src_inverter_norm_exact (m adj v : List (BitVec 64)) (inv : BitVec 64) (negate : Bool) (hl : m.length = v.length)
+    (wv : WFw v) (wm : WFw m) (hne : v ≠ []) (hM : 0 < uval (nats m))
+    (h1 : -(2 * uval (nats m)) < uval (nats v)) (h2 : uval (nats v) < uval (nats m))
+    (hcap : 4 * uval (nats m) ≤ ((Q ^ v.length : Nat) : Int)) :
+    nats (Gen.SafeGcdLimbs.Inverter.norm v.length (m, adj, inv) v (GenBits.ofBool negate)) = norm (nats m) (nats v) negate ∧
+    (Gen.SafeGcdLimbs.Inverter.norm v.length (m, adj, inv) v (GenBits.ofBool negate)).length = v.length ∧
+    WFw (Gen.SafeGcdLimbs.Inverter.norm v.length (m, adj, inv) v (GenBits.ofBool negate)) ∧
+    uval (nats (Gen.SafeGcdLimbs.Inverter.norm v.length (m, adj, inv) v (GenBits.ofBool negate))) =
+      (if negate then -uval (nats v) else uval (nats v)) % uval (nats m) := by
+  obtain ⟨e, w, l⟩ := GenSafeGcdLimbs.norm_bridge m adj v inv negate hl wv wm
+  have hnl : (nats v).length = v.length := by simp [nats]
+  obtain ⟨_, _, p3⟩ := P10.inverter_norm_exact (nats m) (nats v) negate ((GenSafeGcdLimbs.WFw_iff m).mp wm)
+    ((GenSafeGcdLimbs.WFw_iff v).mp wv) (by simp [nats, hl]) (by simpa [nats] using hne) hM h1 h2 (by rw [hnl]; exact hcap)
+  exact ⟨e.symm, l, w, by rw [← e]; exact p3⟩
+
+/-- non-vacuity: the translated source on three 62-bit limbs — `7 + (−9) = −2`, `(−9)·(−3) = 27`, `−(−9) = 9`,
+    `(−9·2^62) >> 62 = −9`, and one `fg` step with the matrix `[[1, 0], [−1, 1]]` on `f = 7·2^62`, `g = 12·2^62`: `(7, 5)` -/
+example :
+    Gen.SafeGcdLimbs.UnsatInt.add 3 [7#64, 0#64, 0#64] (Gen.SafeGcdLimbs.UnsatInt.neg 3 [9#64, 0#64, 0#64]) =
+      Gen.SafeGcdLimbs.UnsatInt.neg 3 [2#64, 0#64, 0#64] ∧
+    Gen.SafeGcdLimbs.UnsatInt.mul 3 (Gen.SafeGcdLimbs.UnsatInt.neg 3 [9#64, 0#64, 0#64]) (-3#64) = [27#64, 0#64, 0#64] ∧
+    Gen.SafeGcdLimbs.UnsatInt.neg 3 (Gen.SafeGcdLimbs.UnsatInt.neg 3 [9#64, 0#64, 0#64]) = [9#64, 0#64, 0#64] ∧
+    Gen.SafeGcdLimbs.UnsatInt.shr 3 (Gen.SafeGcdLimbs.UnsatInt.neg 3 [0#64, 9#64, 0#64]) =
+      Gen.SafeGcdLimbs.UnsatInt.neg 3 [9#64, 0#64, 0#64] ∧
+    Gen.SafeGcdLimbs.fg 3 [0#64, 7#64, 0#64] [0#64, 12#64, 0#64] ((1#64, 0#64), (-1#64, 1#64)) =
+      ([7#64, 0#64, 0#64], [5#64, 0#64, 0#64]) := by
   decide +kernel
 
 end CB.P10G
